@@ -264,7 +264,24 @@ static void cell_dctx(vf::Ctx& c, int pi, int stage) {
 }
 
 // ---- generated sequences with observable effects ----
-struct Eff { int checksum = 0, magicless = 0, contentSize = 1, windowLog = 0, maxBlock = 0, level = 3; };
+struct Eff { int checksum = 0, magicless = 0, contentSize = 1, windowLog = 0, maxBlock = 0, level = 3, workers = 0; };
+static void apply_eff(ZSTD_CCtx* c, const Eff& e) {
+    ZSTD_CCtx_setParameter(c, ZSTD_c_checksumFlag, e.checksum); ZSTD_CCtx_setParameter(c, ZSTD_c_format, e.magicless);
+    ZSTD_CCtx_setParameter(c, ZSTD_c_contentSizeFlag, e.contentSize); if (e.windowLog) ZSTD_CCtx_setParameter(c, ZSTD_c_windowLog, e.windowLog);
+    if (e.maxBlock) ZSTD_CCtx_setParameter(c, ZSTD_c_maxBlockSize, e.maxBlock); ZSTD_CCtx_setParameter(c, ZSTD_c_compressionLevel, e.level);
+    ZSTD_CCtx_setParameter(c, ZSTD_c_nbWorkers, e.workers);
+}
+// one frame, one-shot or streamed, the same way on any context
+static size_t one_frame(ZSTD_CCtx* cctx, bool oneshot, const std::vector<uint8_t>& x, std::vector<uint8_t>& out, std::string* err) {
+    out.assign(ZSTD_compressBound(x.size()) + 64, 0);
+    if (oneshot) { size_t n = ZSTD_compress2(cctx, out.data(), out.size(), x.data(), x.size()); if (ZSTD_isError(n)) *err = ZSTD_getErrorName(n); return n; }
+    ZSTD_inBuffer in = {x.data(), x.size(), 0}; ZSTD_outBuffer ob = {out.data(), out.size(), 0};
+    size_t r; unsigned gd = 0;
+    do { r = ZSTD_compressStream2(cctx, &ob, &in, ZSTD_e_continue); if (ZSTD_isError(r)) { *err = ZSTD_getErrorName(r); return r; } } while (in.pos < in.size && ++gd < 100000);
+    gd = 0;
+    while ((r = ZSTD_compressStream2(cctx, &ob, &in, ZSTD_e_end)) != 0) { if (ZSTD_isError(r)) { *err = ZSTD_getErrorName(r); return r; } if (++gd > 100000) { *err = "end directive never returned 0"; return (size_t)-1; } }
+    return ob.pos;
+}
 
 static void seq_case(vf::Ctx& c) {
     vf::Tape& t = c.t;
@@ -272,10 +289,29 @@ static void seq_case(vf::Ctx& c) {
     struct G { ZSTD_CCtx* c; ~G() { ZSTD_freeCCtx(c); } } g{cctx};
     Eff e;
     unsigned steps = (unsigned)t.range(2, 14);
-    unsigned frames = 0, resets = 0;
+    unsigned frames = 0, resets = 0, dict_frames = 0, frames_after_dict_drop = 0;
+    // dictionary in force: 0 none, 1 loadDictionary, 2 refCDict, 3 refPrefix (next frame only)
+    int dmode = 0; bool dropped = false;
+    std::vector<uint8_t> dict; ZSTD_CDict* cd = nullptr;
+    struct GD { ZSTD_CDict** p; ~GD() { ZSTD_freeCDict(*p); } } gd_{&cd};
+    auto drop_prefix = [&]() { if (dmode == 3) { ZSTD_CCtx_refPrefix(cctx, nullptr, 0); dmode = 0; } };
     for (unsigned s = 0; s < steps; s++) {
-        switch (t.weighted({4, 5, 1, 1, 1})) {
+        switch (t.weighted({4, 5, 1, 1, 1, 2})) {
+            case 5: {  // attach / replace / detach a dictionary
+                int k = (int)t.weighted({3, 2, 3, 1});
+                std::vector<uint8_t> nd = gen::gen_content_sized(t, (size_t)t.range(64, 30000));
+                if (nd.size() >= 4 && nd[0] == 0x37 && nd[1] == 0xA4) nd[0] = 1;
+                size_t r = 0;
+                if (k == 0) { dict = nd; r = ZSTD_CCtx_loadDictionary(cctx, dict.data(), dict.size()); dmode = 1; }
+                else if (k == 1) { dict = nd; ZSTD_CDict* ncd = ZSTD_createCDict(dict.data(), dict.size(), e.level); r = ZSTD_CCtx_refCDict(cctx, ncd); ZSTD_freeCDict(cd); cd = ncd; dmode = 2; }
+                else if (k == 2) { dict = nd; r = ZSTD_CCtx_refPrefix(cctx, dict.data(), dict.size()); dmode = 3; }
+                else { r = ZSTD_CCtx_loadDictionary(cctx, nullptr, 0); dmode = 0; dropped = true; }
+                VF_CHECK(c, !ZSTD_isError(r), "attaching a dictionary (kind %d) between frames: %s", k, ZSTD_getErrorName(r));
+                c.note("dict%d ", k);
+                break;
+            }
             case 0: {  // set an effect-bearing parameter
+                if (t.chance(15)) { e.workers = (int)t.range(0, 2); VF_CHECK(c, !ZSTD_isError(ZSTD_CCtx_setParameter(cctx, ZSTD_c_nbWorkers, e.workers)), "set nbWorkers"); c.note("set "); break; }
                 switch (t.range(0, 5)) {
                     case 0: e.checksum = (int)t.range(0, 1); VF_CHECK(c, !ZSTD_isError(ZSTD_CCtx_setParameter(cctx, ZSTD_c_checksumFlag, e.checksum)), "set checksum"); break;
                     case 1: e.magicless = (int)t.range(0, 1); VF_CHECK(c, !ZSTD_isError(ZSTD_CCtx_setParameter(cctx, ZSTD_c_format, e.magicless)), "set format"); break;
@@ -284,24 +320,36 @@ static void seq_case(vf::Ctx& c) {
                     case 4: e.maxBlock = (int)t.range(1024, 131072); VF_CHECK(c, !ZSTD_isError(ZSTD_CCtx_setParameter(cctx, ZSTD_c_maxBlockSize, e.maxBlock)), "set maxBlockSize"); break;
                     default: e.level = (int)t.irange(1, 9); VF_CHECK(c, !ZSTD_isError(ZSTD_CCtx_setParameter(cctx, ZSTD_c_compressionLevel, e.level)), "set level"); break;
                 }
+                // zstd.h, ZSTD_CCtx_loadDictionary note 2: "compression parameters can no longer be changed after loading a dictionary"
+                // (its tables were built for the parameters of that time): a caller who changes them loads the dictionary again
+                if (dmode == 1) VF_CHECK(c, !ZSTD_isError(ZSTD_CCtx_loadDictionary(cctx, dict.data(), dict.size())), "re-loading the dictionary after a parameter change");
                 c.note("set ");
                 break;
             }
             case 1: {  // a frame; its header and blocks must reflect everything still in force
                 gen::ContentInfo ci;
-                std::vector<uint8_t> x = gen::gen_content(t, 300u << 10, &ci);
-                std::vector<uint8_t> out(ZSTD_compressBound(x.size()) + 64);
+                std::vector<uint8_t> x = (e.workers && t.chance(50)) ? gen::gen_content_sized(t, (size_t)t.range(600u << 10, 1200u << 10), &ci) : gen::gen_content(t, 300u << 10, &ci);
+                if (dmode && dict.size() > 128 && x.size() > 400) memcpy(&x[100], &dict[dict.size() - 100], 100);
+                std::vector<uint8_t> out;
                 bool oneshot = t.flip();
-                size_t n;
-                if (oneshot) n = ZSTD_compress2(cctx, out.data(), out.size(), x.data(), x.size());
-                else {
-                    ZSTD_inBuffer in = {x.data(), x.size(), 0}; ZSTD_outBuffer ob = {out.data(), out.size(), 0};
-                    size_t r = ZSTD_compressStream2(cctx, &ob, &in, ZSTD_e_continue);
-                    VF_CHECK(c, !ZSTD_isError(r), "stream: %s", ZSTD_getErrorName(r));
-                    unsigned gd = 0; while ((r = ZSTD_compressStream2(cctx, &ob, &in, ZSTD_e_end)) != 0) { VF_CHECK(c, !ZSTD_isError(r), "stream end: %s", ZSTD_getErrorName(r)); VF_CHECK(c, ++gd < 1000, "no end"); }
-                    n = ob.pos;
+                std::string err;
+                size_t n = one_frame(cctx, oneshot, x, out, &err);
+                VF_CHECK(c, !ZSTD_isError(n), "frame %u: %s", frames, err.c_str());
+                {   // "stays in force until reset, vanishes after reset": the frame is what a fresh context with exactly the
+                    // settings and the dictionary still in force produces
+                    ZSTD_CCtx* fresh = ZSTD_createCCtx(); apply_eff(fresh, e);
+                    if (dmode == 1) ZSTD_CCtx_loadDictionary(fresh, dict.data(), dict.size());
+                    if (dmode == 2) ZSTD_CCtx_refCDict(fresh, cd);
+                    if (dmode == 3) ZSTD_CCtx_refPrefix(fresh, dict.data(), dict.size());
+                    std::vector<uint8_t> ref; std::string e2; size_t rn = one_frame(fresh, oneshot, x, ref, &e2);
+                    ZSTD_freeCCtx(fresh);
+                    VF_CHECK(c, !ZSTD_isError(rn), "reference frame on a fresh context failed: %s", e2.c_str());
+                    if (n != rn || memcmp(out.data(), ref.data(), n)) {
+                        size_t i = 0; while (i < n && i < rn && out[i] == ref[i]) i++;
+                        c.fail("frame %u (%s, %zu bytes, nbWorkers=%d, dictionary mode %d, %u resets so far): the context produced %zu bytes, a fresh context with the settings and dictionary in force %zu bytes (first difference at %zu): a setting or dictionary that was reset/replaced is still in effect, or one in force was lost",
+                               frames, oneshot ? "one-shot" : "streamed", x.size(), e.workers, dmode, resets, n, rn, i);
+                    }
                 }
-                VF_CHECK(c, !ZSTD_isError(n), "frame %u: %s", frames, ZSTD_getErrorName(n));
                 fw::Frame f = fw::walk(out.data(), n, e.magicless);
                 VF_CHECK(c, f.ok && f.total_size == n, "frame %u does not parse with magicless=%d (format parameter not in force?)", frames, e.magicless);
                 VF_CHECK(c, (int)f.has_checksum == e.checksum, "frame %u: checksum flag %d, parameter in force says %d", frames, (int)f.has_checksum, e.checksum);
@@ -316,16 +364,21 @@ static void seq_case(vf::Ctx& c) {
                 // and it decodes
                 ZSTD_DCtx* d = ZSTD_createDCtx();
                 if (e.magicless) ZSTD_DCtx_setParameter(d, ZSTD_d_format, ZSTD_f_zstd1_magicless);
+                if (dmode == 1 || dmode == 2) ZSTD_DCtx_loadDictionary(d, dict.data(), dict.size());
+                if (dmode == 3) ZSTD_DCtx_refPrefix(d, dict.data(), dict.size());
                 std::vector<uint8_t> back(x.size());
                 size_t dn = ZSTD_decompressDCtx(d, back.data(), back.size(), out.data(), n);
                 ZSTD_freeDCtx(d);
-                VF_CHECK(c, dn == x.size() && back == x, "frame %u does not round trip", frames);
+                VF_CHECK(c, dn == x.size() && back == x, "frame %u does not round trip with the dictionary in force (mode %d): %s", frames, dmode, ZSTD_isError(dn) ? ZSTD_getErrorName(dn) : "content differs");
+                if (dmode) dict_frames++; else if (dropped) frames_after_dict_drop++;
+                if (dmode == 3) dmode = 0;   // a prefix is single use
                 frames++;
                 c.note("frame(%zu,%s) ", x.size(), oneshot ? "oneshot" : "stream");
                 break;
             }
             case 2: {  // parameters must survive a session reset, also one that follows a failed call
                 int pre[64], post[64];
+                drop_prefix();
                 snapshot_c(cctx, pre);
                 if (t.flip()) {
                     std::vector<uint8_t> x = sample((size_t)t.range(1000, 200000));
@@ -340,8 +393,9 @@ static void seq_case(vf::Ctx& c) {
                 c.note("reset_session ");
                 break;
             }
-            case 3: { size_t r = ZSTD_CCtx_reset(cctx, t.flip() ? ZSTD_reset_parameters : ZSTD_reset_session_and_parameters); VF_CHECK(c, !ZSTD_isError(r), "reset"); e = Eff(); resets++; c.note("reset_params "); break; }
+            case 3: { size_t r = ZSTD_CCtx_reset(cctx, t.flip() ? ZSTD_reset_parameters : ZSTD_reset_session_and_parameters); VF_CHECK(c, !ZSTD_isError(r), "reset"); e = Eff(); resets++; if (dmode) dropped = true; dmode = 0; c.note("reset_params "); break; }
             default: {  // the simple API ignores advanced settings: equals a fresh context at that level
+                drop_prefix();
                 std::vector<uint8_t> x = sample((size_t)t.range(0, 60000));
                 std::vector<uint8_t> o1(ZSTD_compressBound(x.size())), o2(o1.size());
                 int lvl = (int)t.irange(1, 7);
@@ -358,7 +412,8 @@ static void seq_case(vf::Ctx& c) {
         }
     }
     c.label("mode:sequence");
-    c.nontrivial = frames >= 2 && (e.checksum || e.magicless || e.windowLog || e.maxBlock || resets);
+    c.label("seq_frames_with_dictionary", dict_frames); c.label("seq_frames_after_dictionary_dropped", frames_after_dict_drop);
+    c.nontrivial = frames >= 2 && (e.checksum || e.magicless || e.windowLog || e.maxBlock || resets || dict_frames);
 }
 
 void vf_case(vf::Ctx& c) {
